@@ -19,6 +19,7 @@ use std::{io, path};
 use async_trait::async_trait;
 use bytes::Bytes;
 use tempfile::TempDir;
+use tokio::io::AsyncWriteExt;
 use tokio::sync::Semaphore;
 use tracing::{error, trace, warn};
 use url::Url;
@@ -100,7 +101,38 @@ impl super::Protocol for Protocol {
                 options.create(true).truncate(true);
             }
         }
-        if let Err(err) = tokio::fs::write(&full_path, content).await {
+        let mut file = match options.open(&full_path).await {
+            Ok(file) => file,
+            Err(err)
+                if write_mode == WriteMode::CreateNew
+                    && err.kind() == io::ErrorKind::AlreadyExists
+                    && is_empty_file(&full_path).await =>
+            {
+                // An interrupted write can leave an empty file behind; such a file holds
+                // nothing worth protecting and may be completed.
+                match tokio::fs::OpenOptions::new()
+                    .write(true)
+                    .open(&full_path)
+                    .await
+                {
+                    Ok(file) => file,
+                    Err(err) => return Err(super::Error::io_error(&full_path, err)),
+                }
+            }
+            Err(err) => {
+                // Nothing was created by us, so there is nothing to clean up: in particular
+                // an existing file that made a create-new write fail must be left alone.
+                error!("Failed to open {full_path:?} for writing: {err:?}");
+                return Err(super::Error::io_error(&full_path, err));
+            }
+        };
+        let result = async {
+            file.write_all(content).await?;
+            file.flush().await
+        }
+        .await;
+        drop(file);
+        if let Err(err) = result {
             error!("Failed to write {full_path:?}: {err:?}");
             if let Err(err2) = tokio::fs::remove_file(&full_path).await {
                 error!("Failed to remove {full_path:?}: {err2:?}");
@@ -180,6 +212,13 @@ impl super::Protocol for Protocol {
     fn local_path(&self) -> Option<PathBuf> {
         Some(self.path.clone())
     }
+}
+
+/// True if the path is an existing regular file of zero length.
+async fn is_empty_file(path: &Path) -> bool {
+    tokio::fs::metadata(path)
+        .await
+        .is_ok_and(|m| m.is_file() && m.len() == 0)
 }
 
 async fn collect_tokio_dir_entry(dir_entry: tokio::fs::DirEntry) -> Option<DirEntry> {
